@@ -278,11 +278,12 @@ example : run { okEnv "delete" ["topic"] [] with bodyOk := true } adminSkel_topi
 example : run { okEnv "" [] ["Topic"] with otherCond := fun s => s == "!protocol.IsValidTopicName(body.Topic)" }
     adminSkel_createTopicChannelHandler = (400, [.bodyRead]) := by decide
 
-/-- **admin_fanout (request level).** The `ClusterInfo` actions as sets of upstream requests
-(model `Nsq.Model.AdminFanout`, tied to `internal/clusterinfo/data.go` by the correspondence
-harness): every action POSTs its command to *every* producer of the topic that the responding
-nsqlookupds (or, without lookupds, the configured nsqds) report, and the create / delete /
-tombstone actions additionally to *every* configured nsqlookupd. -/
+/-- **admin_fanout (request level) — a membership lemma of the older model, not a tie.** In the hand-written
+model `Nsq.Model.AdminFanout` the list `requests w act` is *defined* as lookupd posts ++ lookup GETs ++ producer
+posts; this theorem only unfolds that definition (`List.mem_map`). It says something about the code only
+through the `gate` correspondence stream, which compares `requests` with what the stubs recorded. The
+statements that carry weight are `fanout_exactly_once` / `fanout_producers` below, about the *translated*
+programs (`Tie.AdminProg`). Kept because the driver's `gate` op still uses `requests`. -/
 theorem admin_fanout_requests (w : Nsq.Model.AdminFanout.World) (act : Nsq.Model.AdminFanout.Action) :
     (∀ p ∈ Nsq.Model.AdminFanout.producersFor w act,
         Nsq.Model.AdminFanout.Req.post p (Nsq.Model.AdminFanout.nsqdCommand act) ∈
